@@ -273,8 +273,9 @@ extern "C" void h_dec_textstring(void) { string_op(1); }
 // ---- skip_item: body-wise against the contract of the recursive call (DESIGN.md 3.3) ------------------
 // ghost description of the input: head ++ K opaque children ++ [break] ; the contract stub consumes one child
 static unsigned g_child_len[4]; static unsigned g_children; static unsigned g_child_next; static size_t g_child_pos[4];
-static Ctx* g_ctx; static bool g_contract_misuse;
-extern "C" void skip_item__contract(CdnsDecoder* d) {
+static Ctx* g_ctx; static bool g_contract_misuse; static unsigned g_depth_given, g_depth_bad;
+extern "C" void skip_item__contract(CdnsDecoder* d, unsigned depth) {
+    if (depth != g_depth_given + 1) g_depth_bad++;       // every recursive call goes exactly one level deeper
     // contract of skip_item on a well-formed child: consumes exactly the child's bytes (End if the input ends inside it)
     Ctx& c = *g_ctx;
     if (g_child_next >= g_children) { g_contract_misuse = true; throw CdnsDecoderException("contract: unexpected child"); }
@@ -311,7 +312,9 @@ static void skip_container(unsigned kind) {
         }
     }
     if (h.indef) { __verif_assume(at < c.rlen && c.R(at) == 0xff); at += 1; }
-    CALL(d.skip_item())
+    g_depth_given = (unsigned)vs_range(CdnsDecoder::MAX_SKIP_NESTING); g_depth_bad = 0;
+    CALL(d.skip_item(g_depth_given))
+    __verif_assert(g_depth_bad == 0, "recursive calls pass depth + 1 (nesting is counted)");
     __verif_assert(!g_contract_misuse, "recursive skip_item calls happen exactly at the children's positions");
     __verif_assert(x == NONE, "well-formed container / tag is skipped without error (C07)");
     __verif_assert(g_child_next == items, "every child was skipped");
@@ -337,6 +340,7 @@ extern "C" void h_dec_skip_leaf(void) {
     else if (major == 2 || major == 3) { SRef s; s.want = 0; ref_string(c, major, s); out = s.out; used = s.used; }
     else out = ERROR;   // containers and tags: separate obligations
     __verif_assume(major == 0 || major == 1 || major == 7 || major == 2 || major == 3 || c.rlen == 0);
+    g_depth_given = 0;
     CALL(d.skip_item())
     if (c.rlen == 0 || out == END) __verif_assert(x == X_END, "truncated item: CdnsDecoderEnd (C05)");
     else if (out == VALUE) { __verif_assert(x == NONE, "well-formed leaf item is skipped (C07)"); check_consumed(c, used); }
@@ -351,8 +355,27 @@ extern "C" void h_dec_skip_any(void) {
     CdnsDecoder& d = c.box.d;
     g_children = 3; g_child_next = 0;
     for (unsigned k = 0; k < 3; k++) { g_child_len[k] = 1 + (unsigned)vs_range(2); g_child_pos[k] = 0; }
+    g_depth_given = 0;
     CALL(d.skip_item())
     if (c.rlen == 0) __verif_assert(x == X_END, "exhausted input: CdnsDecoderEnd (C05)");
     check_reserve(c);
+    WITNESS_END();
+}
+
+// nesting: beyond MAX_SKIP_NESTING levels the item is refused before anything is read or any deeper call is made,
+// so the recursion depth (stack use) is bounded by a constant independent of the input (C03)
+extern "C" void h_dec_skip_depth(void) {
+    Ctx c; setup(c); g_ctx = &c; g_contract_misuse = false;
+    CdnsDecoder& d = c.box.d;
+    g_children = 3; g_child_next = 0;
+    for (unsigned k = 0; k < 3; k++) { g_child_len[k] = 1 + (unsigned)vs_range(2); g_child_pos[k] = 0; }
+    g_depth_given = nondet_u32(); g_depth_bad = 0;
+    __verif_assume(g_depth_given < 0xfffffff0u);
+    CALL(d.skip_item(g_depth_given))
+    __verif_assert(g_depth_bad == 0, "recursive calls pass depth + 1 (nesting is counted)");
+    if (g_depth_given > CdnsDecoder::MAX_SKIP_NESTING) {
+        __verif_assert(x == X_DEC, "nesting beyond the limit is refused with CdnsDecoderException");
+        __verif_assert(g_child_next == 0 && rem_len(c) == c.rlen, "nothing is read and no deeper call is made once the limit is exceeded");
+    }
     WITNESS_END();
 }
